@@ -2,6 +2,7 @@ package spec
 
 import (
 	"fmt"
+	"reflect"
 
 	"github.com/go-openapi/swag"
 )
@@ -54,7 +55,16 @@ func ResolveRef(root interface{}, ref *Ref) (*Schema, error) {
 		}
 		return newSch, nil
 	default:
-		return nil, fmt.Errorf("type: %T: %w", sch, ErrUnknownTypeForReference)
+		// any other value the typed document holds there (a *SchemaOrArray, a *SchemaOrBool, the *Swagger itself...):
+		// the schema its JSON form decodes to, as when the root is supplied as generic JSON
+		if rv := reflect.ValueOf(res); res == nil || (rv.Kind() == reflect.Ptr && rv.IsNil()) {
+			return nil, fmt.Errorf("%q designates nothing in the document: %w", ref.String(), ErrSpec)
+		}
+		newSch := new(Schema)
+		if err = swag.DynamicJSONToStruct(res, newSch); err != nil {
+			return nil, fmt.Errorf("type: %T: %w: %v", sch, ErrUnknownTypeForReference, err) //nolint:errorlint
+		}
+		return newSch, nil
 	}
 }
 
